@@ -1410,6 +1410,75 @@ BUDGET = {"quick": {"cfg": 90, "perm": 8, "live": 4, "map": 12, "ens": 4},
           "thorough": {"cfg": 500, "perm": 6, "live": 20, "map": 70, "ens": 28}}
 
 
+# ====================================================================================== seed stream
+def _seed_cost(x):
+    return float(sum((float(v) - 0.25) ** 2 for v in x)) + 1.0
+
+
+def seed_run(kind, seed, order):
+    """one run whose ONLY source of reproducibility is mystic.tools.random_seed(seed) (python's AND numpy's generator):
+    initial points / member start points are drawn from numpy's global source in three of the four kinds"""
+    from mystic.tools import random_seed
+    from mystic.solvers import DifferentialEvolutionSolver2, NelderMeadSimplexSolver, BuckshotSolver, DifferentialEvolutionSolver
+    from mystic.termination import VTR
+    from mystic.monitors import Monitor
+    random_seed(seed)
+    out = {}
+    if kind == "buckshot":
+        s = BuckshotSolver(2, 4); s.SetNestedSolver(NelderMeadSimplexSolver)
+        calls = {"ranges": lambda: s.SetStrictRanges([-2.0, -2.0], [3.0, 3.0]), "limits": lambda: s.SetEvaluationLimits(generations=6),
+                 "term": lambda: s.SetTermination(VTR(1e-12))}
+        for name in order:
+            calls[name]()
+        s.Solve(_seed_cost)
+        out["starts"] = None
+    else:
+        cls = DifferentialEvolutionSolver2 if kind in ("multinormal", "sampled") else DifferentialEvolutionSolver
+        s = cls(2, 6)
+        def init():
+            if kind == "multinormal":
+                s.SetMultinormalInitialPoints([0.5, 0.5], [[1.0, 0.0], [0.0, 2.0]])
+            elif kind == "sampled":
+                from mystic.math import Distribution
+                import numpy as _np
+                s.SetSampledInitialPoints(Distribution(_np.random.normal, 0.0, 2.0))
+            else:
+                s.SetRandomInitialPoints([-3.0, -3.0], [3.0, 3.0])
+        calls = {"init": init, "limits": lambda: s.SetEvaluationLimits(generations=5), "term": lambda: s.SetTermination(VTR(1e-12)),
+                 "mon": lambda: s.SetGenerationMonitor(Monitor())}
+        for name in order:
+            calls[name]()
+        out["starts"] = [vec(p) for p in s.population]
+        s.Solve(_seed_cost)
+    out["best"] = vec(s.bestSolution); out["bestE"] = float(s.bestEnergy); out["hist"] = [float(e) for e in s.energy_history]
+    out["evals"] = int(s.evaluations)
+    return out
+
+
+def seed_stream(seed, shard, ncases, tier, hist, findings, samples, ks=None):
+    """same seed through `random_seed` (every seed value incl. 0 and 2**32-1, call orders permuted) => identical runs"""
+    n = nt = 0
+    for k in (ks if ks is not None else range(ncases)):
+        rng = case_rng(PID + "/seed", seed, shard, k)
+        kind = rng.choice(["buckshot", "multinormal", "sampled", "uniform"])
+        sd = rng.choice([0, 0, 1, 2 ** 32 - 1, rng.randrange(2 ** 31), rng.randrange(1, 1000)])
+        names = ["ranges", "limits", "term"] if kind == "buckshot" else ["init", "limits", "term", "mon"]
+        o1 = list(names); o2 = list(names); rng.shuffle(o2)
+        try:
+            a = seed_run(kind, sd, o1); b = seed_run(kind, sd, o2)
+        except Exception as exc:
+            hist["seed:raised:" + type(exc).__name__] = hist.get("seed:raised:" + type(exc).__name__, 0) + 1
+            continue
+        n += 1; nt += 1
+        hist["seed:%s:%s" % (kind, "zero" if sd == 0 else "nonzero")] = hist.get("seed:%s:%s" % (kind, "zero" if sd == 0 else "nonzero"), 0) + 1
+        if json.dumps(a, sort_keys=True) != json.dumps(b, sort_keys=True):
+            what = next((key for key in a if a[key] != b[key]), "?")
+            findings.append(Finding("monitor", "seed/%s/same-seed-different-run" % kind,
+                                    "random_seed(%d) then the same configuration (call orders %r / %r) gives different runs: %s %r vs %r"
+                                    % (sd, o1, o2, what, a[what], b[what]), {"stream": "seed", "kind": kind, "seed": sd, "orders": [o1, o2], "k": k, "shard": shard}))
+    return n, nt
+
+
 def run_shard(pid, seed, shard, ncases, tier, extra):
     common.import_mystic()
     findings = []; hist = {}; samples = []
@@ -1425,7 +1494,9 @@ def run_shard(pid, seed, shard, ncases, tier, extra):
     n5, nt5 = timed("live", live_stream, max(1, int(b["live"] * scale)))
     n3, nt3, l3 = timed("map", map_stream, max(1, int(b["map"] * scale)))
     n4, nt4 = timed("ens", ens_stream, max(1, int(b["ens"] * scale)))
-    hist["cases:cfg"] = n1; hist["cases:perm"] = n2; hist["cases:map"] = n3; hist["cases:ens"] = n4; hist["cases:live"] = n5
+    n6, nt6 = timed("seed", seed_stream, max(1, int(b.get("seed", 6) * scale)))
+    n1 += n6; nt1 += nt6; hist["cases:seed"] = n6
+    hist["cases:cfg"] = n1 - n6; hist["cases:perm"] = n2; hist["cases:map"] = n3; hist["cases:ens"] = n4; hist["cases:live"] = n5
     return {"evaluations": n1 + n2 + n3 + n4 + n5, "nontrivial": nt1 + nt2 + nt3 + nt4 + nt5, "model_lines": l1 + l3,
             "findings": findings, "samples": samples, "hist": hist}
 
